@@ -63,6 +63,13 @@ def r_C32(root):
                            "metamodel.scope_providers": table, "self.parser.metamodel.scope_providers": table, "default_scope": pyeval.Callee("default", log, ret),
                            "self.parser.debug": False, "self.debug": False, "metamodel.debug": False,
                            "__functions__": {f_.name: f_ for f_ in ast.walk(t) if isinstance(f_, ast.FunctionDef) and f_.name.startswith("_") and not f_.name.startswith("__")}}
+                    # the default provider kept on the resolver (built once in __init__): an attribute of self called with the triple that is no method
+                    meths_ = {f_.name for f_ in ast.walk(t) if isinstance(f_, ast.FunctionDef)}
+                    for c_ in [c_ for st_ in frag for c_ in calls(st_)]:
+                        if isinstance(c_.func, ast.Attribute) and isinstance(c_.func.value, ast.Name) and c_.func.value.id == "self" and c_.func.attr not in meths_ and [ast.unparse(a) for a in c_.args] == [R_obj, R_attr, R_ref]:
+                            env.setdefault("self." + c_.func.attr, pyeval.Callee("default", log, ret))
+                    for x_ in [x_ for st_ in frag for x_ in ast.walk(st_) if isinstance(x_, ast.Attribute) and isinstance(x_.value, ast.Name) and x_.value.id == "self" and "default" in x_.attr and x_.attr not in meths_]:
+                        env.setdefault("self." + x_.attr, pyeval.Callee("default", log, ret))
                     # locals computed before the fragment (e.g. a hoisted class-name variable): bound from their single definition
                     assigned = {x.id for st_ in frag for x in ast.walk(st_) if isinstance(x, ast.Name) and isinstance(x.ctx, ast.Store)}
                     for x in [x for st_ in frag for x in ast.walk(st_) if isinstance(x, ast.Name) and isinstance(x.ctx, ast.Load)]:
